@@ -2,8 +2,11 @@
 import os, sys, json, time, hashlib
 
 ROOT = os.path.dirname(os.path.dirname(os.path.abspath(__file__)))
-EVID = os.path.join(ROOT, 'evidence')
-REPLAY = os.path.join(ROOT, 'replay')
+# VERIF_OUT redirects evidence/ and replay/ (used when a check is run against a scratch tree with a seeded change,
+# so that the committed evidence always describes /repo itself)
+_OUT = os.environ.get('VERIF_OUT') or ROOT
+EVID = os.path.join(_OUT, 'evidence')
+REPLAY = os.path.join(_OUT, 'replay')
 KNOWN = os.path.join(ROOT, 'known_findings.txt')
 
 
